@@ -22,6 +22,9 @@ Judge(k) ==
   /\ Report(k, "C13.ImportOK", ln(k).rt.init = "ok")
   /\ Report(k, "C13.ReexportEqual", ln(k).rt.equal2)
   /\ Report(k, "C19.ParseBack", \A x \in SetOf(ln(k).rt.missing) : x.v.kind # "cons")
+  (* every reader of the code that parses heights out of keys returns every stored consensus height *)
+  /\ Report(k, "C19.IteratorReadsBack", ln(k).rb.missing_iter = <<>>)
+  /\ Report(k, "C19.QueryReadsBack", ln(k).rb.missing_query = <<>>)
   /\ Report(k, "C19.KnownKeyShapes", \A e \in store' : e.v.kind # "other")
   /\ (ln(k).ev # "Reset" /\ ln(k).res # "ok") => Report(k, "C18.FailureChangesNothing", ln(k).dg.pre = ln(k).dg.post /\ store' = store)
 C_Step(k) ==
